@@ -15,7 +15,7 @@
    everything listed is legal - and that is what is stated. *)
 From Coq Require Import ZArith List.
 From TV Require gen.Consts.
-From TV Require Import model.Tak spec.MoveSpec proofs.Generator proofs.C03Ties.
+From TV Require Import model.Tak spec.MoveSpec spec.Rules proofs.Generator proofs.C03Ties proofs.Compose.
 Import ListNotations.
 Open Scope Z_scope.
 
@@ -64,3 +64,15 @@ Proof. exact legal_filter_same. Qed.
 Theorem C03_slides_tie :
   Consts.all_slides_lengths = map (fun n => zlen (all_slides n)) (seq 0 9).
 Proof. exact slides_tie. Qed.
+
+(* the same with "legal" read as the declarative rulebook relation of C01 (spec/Rules.v):
+   every canonical move the rules allow is generated exactly once and is a table entry ... *)
+Theorem C03_generator_complete_rulebook : forall p m p',
+  Rules.wf_pos p -> canonical m -> legal_step p m p' ->
+  In m (all_moves p) /\ count_occ mv_eq_dec (all_moves p) m = 1%nat /\ In m (table (size p)).
+Proof. exact generator_complete_rulebook. Qed.
+(* ... and the table entries the code accepts are exactly the canonical moves the rulebook allows, each once *)
+Theorem C03_table_filter_is_rulebook : forall p, Rules.wf_pos p ->
+  NoDup (filter (accepted p) (table (size p))) /\
+  forall m, In m (filter (accepted p) (table (size p))) <-> canonical m /\ exists p', legal_step p m p'.
+Proof. exact table_filter_is_rulebook. Qed.
